@@ -18,6 +18,20 @@ function under test on the same input):
            strings) or itself as a string.
  atom      a conforming value / its canonical text is never rejected by the atom's parser.
  order     every permutation of the members of a Union accepts the same inputs.
+ declare   a Union / container hint can be declared (add_argument) whatever the order of its members.
+
+What is deliberately *not* asserted (the statement is silent): whether an atom converts a value of another kind ('3' -> 3 is
+jsonargparse's normal behaviour, so int -> str or 1.0 -> 1 would not be violations either; only the result's conformance is
+checked), which member's value a multi-accepting Union returns, and values of another container kind (a tuple for List).
+
+The work is spread over WORKERS forked processes by type index; the parent merges their events in the order of the type
+enumeration, so the report does not depend on the number of workers.  Path types are left to C19.
+
+Defect classes met on the unchanged tree (tight keys; nothing is special-cased away; see `emit` for how unboundedly many
+failing inputs of one defect are listed): the Union string fall-back (`vals[-1]`, known) - symptoms 'rejected:str-union:text',
+'accepted:str-union:text' (an element that no member accepts is replaced by the whole argument text), 'Union<-ValueError/TypeError'
+on adapt_typehints, 'order/str-member:text'; Literal membership by `==` only ('Literal[1,2]<-bool/float'); Dict[str, .] keys not
+checked ('dictkey<-int'); Union[None, Enum] cannot be declared ('declare').
 """
 import copy
 import enum
@@ -689,6 +703,10 @@ def work(job):
 
 
 def main():
+    if os.environ.get("PYTHONHASHSEED") != "0":
+        # python sets of strings / enum members are among the candidate values; the order in which the code under test meets their
+        # elements (and so the number of contract evaluations before a refusal) follows the hash seed: pin it (rule 4: deterministic)
+        os.execve(sys.executable, [sys.executable] + sys.argv, dict(os.environ, PYTHONHASHSEED="0"))
     h = Harness(NAME, RULE)
     types = enumerate_types(h)
     bad_hints = [t.name for t in types if not hint_matches(t)]
